@@ -17,6 +17,58 @@ def _first_line(node, pred):
     return min(ls) if ls else None
 
 
+def cache_discipline(px):
+    """every write to the class -> template cache stores, under the class popped from the search queue, the template looked up by
+    that class's own name: an entry for a class that was merely passed over (or a value found for another class) makes a later
+    lookup depend on which classes were resolved before"""
+    f = px.func(LOADERS, "DSDLTemplateLoader._type_to_template_internal")
+    cache_attr = None
+    for n in ast.walk(f.node):
+        if isinstance(n, ast.Attribute) and "cache" in n.attr and isinstance(n.value, ast.Name) and n.value.id == "self":
+            cache_attr = n.attr
+    if cache_attr is None:
+        return True, "no cache"
+    popped = {t.id for n in ast.walk(f.node) if isinstance(n, ast.Assign) and isinstance(n.value, ast.Call) and getattr(n.value.func, "attr", "") in ("pop", "popleft")
+              for t in n.targets if isinstance(t, ast.Name)}
+    tparam = f.node.args.args[2].arg if len(f.node.args.args) > 2 else "templates"
+    writes = []   # (key expr, value expr, node)
+    for n in ast.walk(f.node):
+        if isinstance(n, ast.Assign) and isinstance(n.targets[0], ast.Subscript) and ast.unparse(n.targets[0].value) == f"self.{cache_attr}":
+            writes.append((n.targets[0].slice, n.value, n))
+        if isinstance(n, ast.Call) and isinstance(n.func, ast.Attribute) and ast.unparse(n.func.value) == f"self.{cache_attr}":
+            if n.func.attr in ("setdefault", "__setitem__") and len(n.args) == 2:
+                writes.append((n.args[0], n.args[1], n))
+            elif n.func.attr in ("update", "clear", "pop", "popitem"):
+                writes.append((None, None, n))
+    if not writes:
+        return False, "the cache is never filled (anchor changed)"
+    # values: a local assigned (only) from templates[<key>.__name__] / templates.get(...)
+    def from_own_name(val, key):
+        cands = [val]
+        if isinstance(val, ast.Name):
+            cands = [n.value for n in ast.walk(f.node) if isinstance(n, ast.Assign) and any(isinstance(t, ast.Name) and t.id == val.id for t in n.targets)
+                     and not (isinstance(n.value, ast.Constant) and n.value.value is None)
+                     and not (isinstance(n.value, ast.Subscript) and ast.unparse(n.value.value) == f"self.{cache_attr}")]
+        good = False
+        for c in cands:
+            if isinstance(c, ast.Subscript) and isinstance(c.value, ast.Name) and c.value.id == tparam:
+                sl = pyfront.subst_locals(f.node, c.slice)
+                if ast.unparse(sl) == f"{key}.__name__":
+                    good = True
+                    continue
+            return False
+        return good
+    for key, val, node in writes:
+        if key is None:
+            return False, f"`{ast.unparse(node)[:60]}` rewrites the cache wholesale"
+        if not (isinstance(key, ast.Name) and key.id in popped):
+            return False, (f"`{ast.unparse(node)[:70]}` stores an entry under `{ast.unparse(key)}`, which is not the class whose own name selected the template: "
+                           "with multiple inheritance a class passed over on one search is answered with another branch's template on the next")
+        if not from_own_name(val, key.id):
+            return False, "cached value is not the template named after the key class"
+    return True, "memo class -> template named after that class; function of the key and the loader's fixed listing"
+
+
 def rule_precedence(ctx, px):
     R = "R-C16-PRECEDENCE"
     ctx.rule(
@@ -58,37 +110,62 @@ def rule_precedence(ctx, px):
 
     tt = px.func(LOADERS, "DSDLTemplateLoader.type_to_template")
     calls = [c for c in ast.walk(tt.node) if isinstance(c, ast.Call) and isinstance(c.func, ast.Attribute) and c.func.attr == "_type_to_template_internal"]
-    if len(calls) != 2:
-        raise AnalysisError(f"anchor missing: two _type_to_template_internal calls expected, found {len(calls)}")
-    info = []
-    for c in calls:
-        gd = pyfront.guards_of(tt.node, c) or ()
-        terms = pyfront.guard_terms(gd)
-        # which listing feeds it?
-        pm = pyfront.parent_map(tt.node)
-        st = pyfront.enclosing_stmt(c, pm)
-        blk_src = ""
-        # look back for the assignment of filtered_templates in the same block
-        par = pm.get(id(st))
-        body = getattr(par, "body", [])
-        for s in body:
-            if s is st:
+    pm = pyfront.parent_map(tt.node)
+
+    def which_loader(txt):
+        return "fs" if "_fsloader" in txt else ("pkg" if "_package_loader" in txt else "?")
+
+    loop_form = None
+    if len(calls) == 1:
+        cur = calls[0]
+        while id(cur) in pm:
+            cur = pm[id(cur)]
+            if isinstance(cur, ast.For) and isinstance(cur.iter, (ast.Tuple, ast.List)) and isinstance(cur.target, ast.Name):
+                loop_form = cur
                 break
-            if isinstance(s, ast.Assign):
-                blk_src = ast.unparse(s.value)
-        which = "fs" if "_fsloader" in blk_src else ("pkg" if "_package_loader" in blk_src else "?")
-        info.append((c.lineno, which, terms))
-    info.sort()
-    ok = [w for _, w, _ in info] == ["fs", "pkg"]
-    ctx.ob(R, tt.module.rel, f"{tt.short} :: file-system listing searched first", ok, f"order: {[w for _, w, _ in info]}", tt.node.lineno)
-    pk_terms = info[1][2] if len(info) > 1 else []
-    res_names = set()
-    for n in ast.walk(tt.node):
-        if isinstance(n, ast.Assign) and isinstance(n.value, ast.Call) and getattr(n.value.func, "attr", "") == "_type_to_template_internal":
-            res_names |= {t.id for t in n.targets if isinstance(t, ast.Name)}
-    ok = any((f"{r} is None", True) in pk_terms for r in res_names)
-    ctx.ob(R, tt.module.rel, f"{tt.short} :: package listing searched only when the file-system search found nothing", ok,
-           "" if ok else f"package search guarded by {pk_terms}", tt.node.lineno)
+    if len(calls) == 2:
+        info = []
+        for c in calls:
+            gd = pyfront.guards_of(tt.node, c) or ()
+            terms = pyfront.guard_terms(gd)
+            st = pyfront.enclosing_stmt(c, pm)
+            blk_src = ast.unparse(c.args[1]) if len(c.args) > 1 else ""
+            par = pm.get(id(st))
+            for s_ in getattr(par, "body", []):
+                if s_ is st:
+                    break
+                if isinstance(s_, ast.Assign) and which_loader(blk_src) == "?":
+                    blk_src = ast.unparse(s_.value)
+            info.append((c.lineno, which_loader(blk_src), terms))
+        info.sort()
+        ok = [w for _, w, _ in info] == ["fs", "pkg"]
+        ctx.ob(R, tt.module.rel, f"{tt.short} :: file-system listing searched first", ok, f"order: {[w for _, w, _ in info]}", tt.node.lineno)
+        pk_terms = info[1][2] if len(info) > 1 else []
+        res_names = set()
+        for n in ast.walk(tt.node):
+            if isinstance(n, ast.Assign) and isinstance(n.value, ast.Call) and getattr(n.value.func, "attr", "") == "_type_to_template_internal":
+                res_names |= {t.id for t in n.targets if isinstance(t, ast.Name)}
+        ok = any((f"{r} is None", True) in pk_terms or (f"{r} is not None", False) in pk_terms for r in res_names)
+        ctx.ob(R, tt.module.rel, f"{tt.short} :: package listing searched only when the file-system search found nothing", ok,
+               "" if ok else f"package search guarded by {pk_terms}", tt.node.lineno)
+    elif loop_form is not None:
+        order = [which_loader(ast.unparse(e)) for e in loop_form.iter.elts]
+        ok = order == ["fs", "pkg"]
+        ctx.ob(R, tt.module.rel, f"{tt.short} :: file-system listing searched first", ok, f"order: {order}", tt.node.lineno)
+        # a result ends the loop at once: `if <result> is not None: return <result>` (or break) directly after the search
+        res_names = {t.id for n in ast.walk(loop_form) if isinstance(n, ast.Assign) and n.value is calls[0] for t in n.targets if isinstance(t, ast.Name)}
+        stops = False
+        for st_, gd in pyfront.walk_guarded(loop_form.body):
+            if isinstance(st_, (ast.Return, ast.Break)):
+                terms = pyfront.guard_terms(gd)
+                if any((f"{r} is not None", True) in terms or (f"{r} is None", False) in terms or (r, True) in terms for r in res_names):
+                    stops = True
+        direct = any(isinstance(st_, ast.Return) and st_.value is calls[0] for st_ in ast.walk(loop_form))
+        ok = stops and not direct
+        ctx.ob(R, tt.module.rel, f"{tt.short} :: package listing searched only when the file-system search found nothing", ok,
+               "" if ok else "the loop over the loaders does not stop at the first loader that yields a template", loop_form.lineno)
+    else:
+        raise AnalysisError(f"anchor missing: the two loader searches of type_to_template (found {len(calls)} _type_to_template_internal call(s))")
 
     it = px.func(LOADERS, "DSDLTemplateLoader._type_to_template_internal")
     src = ast.unparse(it.node)
@@ -114,11 +191,22 @@ def rule_precedence(ctx, px):
     popped = {t.id for n in ast.walk(it.node) if isinstance(n, ast.Assign) and isinstance(n.value, ast.Call) and getattr(n.value.func, "attr", "") in ("pop", "popleft")
               for t in n.targets if isinstance(t, ast.Name)}
     lookups = [n for n in ast.walk(it.node) if isinstance(n, ast.Subscript) and isinstance(n.ctx, ast.Load) and isinstance(n.value, ast.Name) and n.value.id == tparam]
-    ok = bool(lookups) and all(isinstance(n.slice, ast.Attribute) and n.slice.attr == "__name__" and isinstance(n.slice.value, ast.Name) and n.slice.value.id in popped for n in lookups)
+    lookups += [ast.Subscript(value=c.func.value, slice=c.args[0], ctx=ast.Load()) for c in ast.walk(it.node) if isinstance(c, ast.Call) and isinstance(c.func, ast.Attribute)
+                and c.func.attr == "get" and isinstance(c.func.value, ast.Name) and c.func.value.id == tparam and c.args]
+
+    def own_name(sl):
+        sl = pyfront.subst_locals(it.node, sl)
+        return isinstance(sl, ast.Attribute) and sl.attr == "__name__" and isinstance(sl.value, ast.Name) and sl.value.id in popped
+    ok = bool(lookups) and all(own_name(n.slice) for n in lookups)
     ctx.ob(R, it.module.rel, f"{it.short} :: a class matches the template carrying exactly its name", ok, "", it.node.lineno)
+    okc, whyc = cache_discipline(px)
+    ctx.ob(R, it.module.rel, f"{it.short} :: the lookup cache is filled only for the class whose own name selected the template", okc, whyc, it.node.lineno)
     # the lookup mapping handed in is keyed by file stem
     for c in calls:
-        a = ast.unparse(c.args[1]) if len(c.args) > 1 else ""
+        a = ast.unparse(pyfront.subst_locals(tt.node, c.args[1])) if len(c.args) > 1 else ""
+        for h in pyfront.private_helpers(px, tt):
+            if f"{h.name}(" in a:
+                a += " " + " ".join(ast.unparse(r.value) for r in ast.walk(h.node) if isinstance(r, ast.Return) and r.value is not None)
         ok = ".stem" in a
         ctx.ob(R, tt.module.rel, f"{tt.short} :: lookup table keyed by template file stem", ok, "" if ok else a, c.lineno)
     # get_templates returns sorted (enumeration order independent)
@@ -298,25 +386,84 @@ def rule_tests(ctx, px):
     keys = [ast.unparse(s.targets[0].slice) for s in stores]
     ok = f"{root}.__name__" in keys
     ctx.ob(R, f.module.rel, f"{f.short} :: test named exactly like the class", ok, f"keys: {keys}", f.node.lineno)
-    # every path defines an alias (if/elif/else all assign)
-    alias_ifs = [s for s in f.node.body if isinstance(s, ast.If)]
-    ok = len(alias_ifs) == 1 and bool(alias_ifs[0].orelse)
-
-    def all_assign(node_if):
-        b = any(isinstance(s, ast.Assign) and ast.unparse(s.targets[0]).startswith(f"{tdict}[") for s in node_if.body)
-        if not node_if.orelse:
-            return False
-        if len(node_if.orelse) == 1 and isinstance(node_if.orelse[0], ast.If):
-            return b and all_assign(node_if.orelse[0])
-        return b and any(isinstance(s, ast.Assign) and ast.unparse(s.targets[0]).startswith(f"{tdict}[") for s in node_if.orelse)
-
-    ok = ok and all_assign(alias_ifs[0])
-    ctx.ob(R, f.module.rel, f"{f.short} :: an alias is defined on every path", ok, "", f.node.lineno)
+    # the alias: lower-cased class name, shortened by a known suffix only when something is left over.  The computation may be
+    # inline or in a private helper that receives the class name.
+    alias_fn, alias_src = f, None
+    for s_ in stores:
+        k = s_.targets[0].slice
+        if isinstance(k, ast.Call) and isinstance(k.func, ast.Attribute) and isinstance(k.func.value, ast.Name) and k.func.value.id in ("cls", "self") \
+                and f.cls is not None and k.func.attr in f.cls.methods and k.args and ast.unparse(k.args[0]) == f"{root}.__name__":
+            alias_fn = f.cls.methods[k.func.attr]
+            alias_src = alias_fn.node.args.args[1].arg if len(alias_fn.node.args.args) > 1 else None
+    lowered = set()
+    for n in ast.walk(alias_fn.node):
+        if isinstance(n, ast.Assign) and isinstance(n.targets[0], ast.Name) and isinstance(n.value, ast.Call) and isinstance(n.value.func, ast.Attribute) \
+                and n.value.func.attr == "lower" and ast.unparse(n.value.func.value) in (f"{root}.__name__", alias_src or "\0"):
+            lowered.add(n.targets[0].id)
+    if not lowered:
+        raise AnalysisError("anchor missing: the lower-cased class name in the alias computation")
+    consts = {}
+    if alias_fn.cls is not None:
+        for st_ in alias_fn.cls.node.body:
+            if isinstance(st_, ast.Assign) and isinstance(st_.targets[0], ast.Name) and isinstance(st_.value, (ast.Tuple, ast.List)):
+                consts[st_.targets[0].id] = st_.value
+    pm_a = pyfront.parent_map(alias_fn.node)
+    n_cut = 0
+    for n in ast.walk(alias_fn.node):
+        if not (isinstance(n, ast.Subscript) and isinstance(n.ctx, ast.Load) and isinstance(n.value, ast.Name) and n.value.id in lowered and isinstance(n.slice, ast.Slice)):
+            continue
+        a_ = n.value.id
+        up = n.slice.upper
+        if n.slice.lower is not None or up is None or not (isinstance(up, ast.UnaryOp) and isinstance(up.op, ast.USub)):
+            ctx.ob(R, alias_fn.module.rel, f"{alias_fn.short} :: alias cut `{ast.unparse(n)}`", False, "the alias is not the lower-cased name minus a suffix", n.lineno)
+            continue
+        n_cut += 1
+        k = ast.unparse(up.operand)        # "4"  or  "len(suffix)"
+        terms = pyfront.guard_terms(pyfront.guards_of(alias_fn.node, n) or ())
+        # enclosing `for suffix in (...)`: the suffix variable ranges over string constants
+        ends = [e for e, pol in terms if pol and e.startswith(f"{a_}.endswith(")]
+        suffix_ok, len_ok = False, False
+        for e in ends:
+            arg = e[len(f"{a_}.endswith("):-1]
+            try:
+                lit = ast.literal_eval(arg)
+            except Exception:
+                lit = None
+            if isinstance(lit, str):
+                suffix_ok = suffix_ok or k == str(len(lit))
+                len_ok = len_ok or any(pol and e2.replace(" ", "") in (f"len({a_})>{len(lit)}", f"{len(lit)}<len({a_})", f"len({a_})>={len(lit) + 1}") for e2, pol in terms)
+            elif arg.isidentifier():
+                suffix_ok = suffix_ok or k == f"len({arg})"
+                len_ok = len_ok or any(pol and e2.replace(" ", "") in (f"len({a_})>len({arg})", f"len({arg})<len({a_})") for e2, pol in terms)
+        ok = suffix_ok and len_ok
+        ctx.ob(R, alias_fn.module.rel, f"{alias_fn.short} :: alias cut `{ast.unparse(n)}` removes a suffix the name ends with and leaves a non-empty alias", ok,
+               "" if ok else f"cut guarded by {terms}: a class named exactly like the suffix (pydsdl.Field) gets the empty alias, or a name is cut that does not end with the suffix",
+               n.lineno)
+    ctx.ob(R, alias_fn.module.rel, f"{alias_fn.short} :: the alias drops a Type/Field suffix", n_cut >= 1, "", alias_fn.node.lineno)
+    # the uncut lower-case name is the alias otherwise
+    if alias_fn is f:
+        whole = any(ast.unparse(s_.targets[0].slice) in lowered for s_ in stores)
+    else:
+        whole = any(isinstance(r, ast.Return) and isinstance(r.value, ast.Name) and r.value.id in lowered for r in ast.walk(alias_fn.node))
+    ctx.ob(R, alias_fn.module.rel, f"{alias_fn.short} :: a name without a known suffix is its own (lower-case) alias", whole, "", alias_fn.node.lineno)
     loops = [n for n in f.node.body if isinstance(n, ast.For)]
     ok = len(loops) == 1 and ast.unparse(loops[0].iter) == f"{root}.__subclasses__()" and "_create_instance_tests_for_type" in ast.unparse(loops[0])
     ctx.ob(R, f.module.rel, f"{f.short} :: recursion over __subclasses__()", ok, "", f.node.lineno)
     allf = px.func(GEN, "DSDLCodeGenerator._create_all_dsdl_tests")
-    roots = [ast.unparse(c.args[0]) for c in ast.walk(allf.node) if isinstance(c, ast.Call) and ast.unparse(c.func).endswith("_create_instance_tests_for_type") and c.args]
+    roots = []
+    pm_all = pyfront.parent_map(allf.node)
+    for c in ast.walk(allf.node):
+        if isinstance(c, ast.Call) and ast.unparse(c.func).endswith("_create_instance_tests_for_type") and c.args:
+            a0 = c.args[0]
+            cur, expanded = c, False
+            while id(cur) in pm_all and isinstance(a0, ast.Name):
+                cur = pm_all[id(cur)]
+                if isinstance(cur, ast.For) and isinstance(cur.target, ast.Name) and cur.target.id == a0.id and isinstance(cur.iter, (ast.Tuple, ast.List)):
+                    roots += [ast.unparse(e) for e in cur.iter.elts]
+                    expanded = True
+                    break
+            if not expanded:
+                roots.append(ast.unparse(a0))
     ok = set(roots) >= {"pydsdl.SerializableType", "pydsdl.Attribute"}
     ctx.ob(R, allf.module.rel, f"{allf.short} :: roots SerializableType and Attribute", ok, f"roots: {roots}", allf.node.lineno)
     init = px.func(GEN, "DSDLCodeGenerator.__init__")
